@@ -131,3 +131,16 @@ CLAIMED['C08'] = ('model_checking',
     'Trusted: TLC, the transcription of LaTeX\'s counter rules and class formats (article, book) in Counters.tla, the concretiser/projection in '
     'harness/drivers/c08.py. Page numbers, \\numberwithin and language formats out of scope.',
     TECH)
+CLAIMED['C09'] = ('model_checking',
+    'Crossref.tla: for several assignments of labels to objects and references to labels (existing, dangling, two labels on one object, '
+    'many references to one label) TLC explores ALL interleavings of object starts, \\label and \\ref events -- every relative order of '
+    'labels and references -- and checks the machine (Context.label / Context.ref: label table, unresolved-reference table with '
+    'placeholders, back-patching loop) against the order-independent rule Target(r): ResolvesToLabelled, ResolvedIffLabelKnown, '
+    'PendingEmptiedForKnownLabels, DistinctIds.  Every complete interleaving (quick: up to 6000 per configuration) is concretised as a LaTeX '
+    'document whose objects are sections, theorems, list items, figure/table captions or equations and parsed by the real engine; each '
+    '\\ref/\\pageref node\'s idref is compared BY IDENTITY with the k-th numbered object, its number with the target\'s, dangling references '
+    'must hold a numberless placeholder, identifiers and the final unresolved table are compared.',
+    'DESIGN.md#c09',
+    'Trusted: TLC, Crossref.tla, the concretiser (object kinds chosen per behaviour, seeded). Cross-document labels are C20; the number '
+    'shown in rendered output is C14.',
+    TECH)
